@@ -2,7 +2,7 @@
 // evaluating and exporting never crash and are repeatable").
 //
 //	harness-c02x run --seed S --tier quick|thorough --out DIR [--replay FILE] [--workers K]
-//	                 [--repo /repo] [--big default|all|none] [--timeout SECONDS]
+//	                 [--repo /repo] [--big default|all|none] [--gen safe|wild] [--timeout SECONDS] [--only KINDPREFIX]
 //	harness-c02x worker [--twice] [--dump]          (child; see worker.go)
 //	harness-c02x gen --seed S --tier T              (print the input list only)
 //
@@ -164,7 +164,7 @@ func stderrDetail(s string) string {
 	if g1 >= 0 {
 		keep = append(keep, strings.SplitN(lines[g1], " gp=", 2)[0]+" (main goroutine), top frames:")
 		n := 0
-		for i := g1 + 1; i+1 < len(lines) && n < 64; i++ {
+		for i := g1 + 1; i+1 < len(lines) && n < 120; i++ {
 			l := lines[i]
 			if l == "" {
 				break
@@ -505,6 +505,9 @@ func sizeBucket(n int) string {
 
 const heavyFactor = 4
 
+// maxDetailedNondet: how many nondeterministic inputs are re-run with --dump for a line-level diff.
+const maxDetailedNondet = 12
+
 func heavy(kind string) bool { return strings.HasPrefix(kind, "deep-") || kind == "big" }
 
 func parentMain(argv []string) int {
@@ -535,6 +538,9 @@ func parentMain(argv []string) int {
 	bigMode := a["--big"]
 	if bigMode == "" {
 		bigMode = "default"
+	}
+	if a["--gen"] == "wild" {
+		genMode = "wild"
 	}
 	exe, err := os.Executable()
 	if err != nil {
@@ -678,6 +684,10 @@ func parentMain(argv []string) int {
 		}
 		nd := &Nondet{ID: in.ID, Kind: in.Kind, Note: in.Note, InputHex: hexOrDash(string(in.Src)), Which: which}
 		diff := ""
+		if len(nondet) >= maxDetailedNondet {
+			// massive breakage: keep the run bounded, the first ones carry full diffs
+			diff = fmt.Sprintf("transcript hashes differ (A1=%s A2=%s B=%s); no detailed re-run beyond the first %d", ra.Sha1[:12], ra.Sha2[:12], rb.Sha1[:12], maxDetailedNondet)
+		}
 		for try := 0; try < 3 && diff == ""; try++ {
 			da := p.runChild("A", []Input{in}, true)
 			db := p.runChild("B", []Input{in}, true)
